@@ -89,6 +89,11 @@ CHECKS={
    text='Exhaustive configuration enumeration: all 27 layouts of a 3-level directory tree (.ergo absent / directory / regular file per level) x start directory at every level x up to 9 spellings (cwd only, --dir absolute, with trailing slash, ".", "..", relative name, "./x/../x", the .ergo directory itself absolute and relative) plus all 8 presence combinations of {plans.jsonl, events.jsonl, lock}, x 10 commands, plus 3 forms of init on every existing store. The checker computes the nearest enclosing .ergo from the layout: it must be what `where --json` reports, the only directory any command changes, read and written through the same log file (plans.jsonl if present else events.jsonl), the lock is recreated, no second log file appears, and init leaves every observation and every log byte-identical.',
    note='Scratch directories have no .ergo above the tree root. Server backend conformance-checked (cwd/PWD handling) against spawned binaries.',
    technique='exhaustive configuration enumeration over real commands'),
+
+ 'C20': dict(engine='SEQ', level='model_checking', design='3/C20',
+   text='Exhaustive path enumeration: every path string of <=3 components over an 18-symbol component alphabet (plain file, directory, .., ., .ergo, .ergo2, ..x, empty, unicode, symlinks to a file / a directory / outside the project / nowhere / /dev/null / the log itself, missing, plans.jsonl, empty dir), each with and without leading and trailing slash, against a fixed project tree; plus targets {task in 3 states, epic, pruned, unknown}, 9 summaries and 3 input modes on 8 paths. Oracle: accepted => target is a live task, the cleaned path is relative, does not start with a .. component, is not .ergo or below, names an existing regular file, the recorded path is the cleaned one, sha256 is the hash of the content at that moment, file_url parses to file:// + the absolute path, the summary is the trimmed single-line input; rejected => nothing written. Then explicit-state search over every history of depth <=4 (5) of later commands (more results, state/title/epic/claim changes, results elsewhere, claim, prune, compact): the results list must equal the model list, newest first, with unaltered evidence, in every state.',
+   note='Lexical confinement judged on filepath.Clean(input); existence/regularity follows symlinks. Over-rejection is not a violation (accepted cases are counted). FIFOs are not in the tree (reading one blocks).',
+   technique='exhaustive small-scope input enumeration + explicit-state BFS over real commands + reference model'),
 }
 NA_REASON='check not built yet (work in progress; design in DESIGN.md)'
 m={"version":1,
